@@ -181,6 +181,27 @@ func suiteAlloc(args []string) {
 				}
 			}
 		}
+		// large integer VALUES (a count announced in the message - Batch Count, Located Items, an attribute index ... - is data,
+		// not a length: nothing may be allocated on its say-so); also with the message cut right behind the item
+		for _, it := range all {
+			if it.typ != 2 && it.typ != 3 && it.typ != 5 {
+				continue
+			}
+			for _, val := range []uint32{300000, 1 << 24, 0x7fffffff} {
+				m := append([]byte(nil), b...)
+				if it.typ == 3 {
+					binary.BigEndian.PutUint64(m[it.hdrEnd:], uint64(val))
+				} else {
+					binary.BigEndian.PutUint32(m[it.hdrEnd:], val)
+				}
+				check(tn, m, fmt.Sprintf("integer item at offset %d (type %d) set to the value %d", it.off, it.typ, val))
+				if it.end+3 <= len(m) {
+					check(tn, m[:it.end+3], "the same, cut 3 bytes behind the item")
+				}
+				rep.Nontrivial++
+				rep.Distribution["planted:integer-value"]++
+			}
+		}
 		for _, it := range all {
 			for _, pl := range planted {
 				m := append([]byte(nil), b...)
